@@ -47,7 +47,11 @@ impl Case {
             comp,
             pool: p[1].parse().ok()?,
             n: p[2].parse().ok()?,
-            mode: if p[3] == "pool" { "pool" } else { "threads" },
+            mode: match p[3] {
+                "pool" => "pool",
+                "frontier" => "frontier",
+                _ => "threads",
+            },
             seed: p[4].parse().ok()?,
         })
     }
@@ -74,11 +78,55 @@ fn cases(seed: u64, tier: Tier) -> Vec<Case> {
             }
         }
     }
+    // many threads reading small ranges of ONE large cluster right behind the decoder's frontier:
+    // on real hardware two readers can be between the same two instructions of the reader-side
+    // bookkeeping, which no scheduler that switches at synchronisation points can arrange
+    for rep in 0..(if tier == Tier::Quick { 2 } else { 12 }) {
+        for comp in [Comp::Zstd(3), Comp::Lz4(3)] {
+            let mut rng = Rng::derive(seed, "c07f-frontier", k);
+            k += 1;
+            out.push(Case {
+                comp,
+                pool: 12,
+                n: 2 + rep % 2,
+                mode: "frontier",
+                seed: rng.next_u64() >> 1,
+            });
+        }
+    }
     out
 }
 
 fn logical_for(c: &Case) -> Logical {
     let mut rng = Rng::derive(c.seed, "c07f-logical", 0);
+    if c.mode == "frontier" {
+        // n large compressible contents, each in a cluster of its own
+        let contents = (0..c.n)
+            .map(|i| {
+                let len = (20 << 20) + rng.range(1, 4 << 20) as usize;
+                ContentSpec {
+                bytes: Arc::new(gen::gen_bytes(&mut rng, i, len, Flavor::Text)),
+                hint: Hint::Yes,
+                src: SrcKind::Cursor,
+                pack: 1,
+            }})
+            .collect();
+        return Logical {
+            comp: c.comp,
+            packaging: Packaging::Loose,
+            n_packs: 1,
+            contents,
+            schema: SchemaSpec {
+                key_prefix: 1,
+                store: StoreKind::Plain,
+                variants: false,
+                key_pad: 0,
+            },
+            dedup: false,
+            aux_seed: rng.next_u64(),
+            opts: Default::default(),
+        };
+    }
     let contents = (0..c.n)
         .map(|i| {
             let len = rng.range(200, 3000) as usize;
@@ -156,7 +204,48 @@ pub fn child_main(args: &Args) -> ! {
         .unwrap_or_else(|e| simcore::harness_error(&format!("c07f: pristine container does not open: {e}")));
     let model = &built.model;
     let errors: std::sync::Mutex<Vec<String>> = std::sync::Mutex::new(vec![]);
-    if case.mode == "pool" {
+    if case.mode == "frontier" {
+        for i in 0..case.n {
+            let c = &model.contents[i];
+            let addr = jubako::ContentAddress::new(c.pack.into(), c.content_id.into());
+            // (a fresh container per content: the cluster is not decoded yet when the readers start)
+            let container = jubako::reader::Container::new(&built.entry)
+                .unwrap_or_else(|e| simcore::harness_error(&format!("c07f: pristine container does not open: {e}")));
+            std::thread::scope(|s| {
+                for t in 0..case.pool {
+                    let container = &container;
+                    let errors = &errors;
+                    s.spawn(move || {
+                        let r = std::panic::catch_unwind(std::panic::AssertUnwindSafe(|| -> Result<(), String> {
+                            let region = match container.get_bytes(addr) {
+                                Ok(Some(jubako::reader::MayMissPack::FOUND(Some(r)))) => r,
+                                _ => return Err(format!("content {i}: not found")),
+                            };
+                            let len = c.bytes.len();
+                            let mut rng = Rng::derive(case.seed, "c07f-frontier-reader", t as u64);
+                            let steps = 6000usize;
+                            for j in 0..steps {
+                                // ascending offsets, each reader on its own grid
+                                let off = (len - 256) / steps * j + rng.range(0, 40) as usize;
+                                let l = rng.range(60, 200) as usize;
+                                match region.get_slice(jubako::Offset::from(off as u64), l) {
+                                    Ok(sl) if sl[..] == c.bytes[off..off + l] => {}
+                                    Ok(_) => return Err(format!("content {i}: slice [{off}, +{l}) differs from the stored bytes")),
+                                    Err(e) => return Err(format!("content {i}: get_slice({off}, {l}) error {e}")),
+                                }
+                            }
+                            Ok(())
+                        }));
+                        match r {
+                            Ok(Ok(())) => {}
+                            Ok(Err(e)) => errors.lock().unwrap().push(e),
+                            Err(_) => errors.lock().unwrap().push(format!("content {i}: a reader panicked")),
+                        }
+                    });
+                }
+            });
+        }
+    } else if case.mode == "pool" {
         use rayon::prelude::*;
         // every worker of the pool asks for a cluster nobody has decoded yet, all at once
         (0..case.n).into_par_iter().for_each(|i| {
@@ -269,7 +358,7 @@ pub fn parent_main(args: &Args) -> ! {
             &path,
             json!({"cases": results.len(), "outcomes": by_mode, "violations": bad.len(), "seed": args.seed, "tier": args.tier.name(),
                    "wall_s": start.elapsed().as_secs_f64(),
-                   "what": "real OS threads (no scheduler control): (pool) the readers are the workers of rayon's global pool of 1/2/4 threads and ask for 12+ undecoded compressed clusters at once; (threads) 4..8 std threads read every content in seeded orders; oracle: exact bytes via stream and tail slice, no panic / signal, termination (30 s watchdog for millisecond cases)",
+                   "what": "real OS threads (no scheduler control): (frontier) 12 threads read 6000 small ranges each, in ascending order, of one 20-24 MiB compressed cluster while it is being decoded; (pool) the readers are the workers of rayon's global pool of 1/2/4 threads and ask for 12+ undecoded compressed clusters at once; (threads) 4..8 std threads read every content in seeded orders; oracle: exact bytes via stream and tail slice, no panic / signal, termination (30 s watchdog for millisecond cases)",
                    "decides": "that decompression jobs do not depend on the caller's own thread pool to make progress (invisible to the T flavour, where the decompression pool is a stub), and a real-memory-model cross-check of the bytes"})
             .to_string(),
         );
